@@ -64,8 +64,10 @@ def ellipse_body(k):
     return body
 
 
-def polygon_body(pname, k, offset):
+def polygon_body(pname, k, offset, clockwise=False):
     base = [(F(x) + offset[0], F(y) + offset[1]) for x, y in POLYS[pname]]
+    if clockwise:
+        base = base[::-1]  # the same region listed clockwise: the default normal becomes -z; the polygon still lies in the xy-plane
 
     def body(H, V):
         from coxeter.shapes import ConvexPolygon
@@ -116,8 +118,9 @@ def _dist2_to_polygon(H, base, pt):
     return 0 * best if inside else best
 
 
-def sphero_body(pname, k, rr):
-    base = [(F(x), F(y)) for x, y in POLYS[pname]]
+def sphero_body(pname, k, rr, clockwise=False):
+    ccw = [(F(x), F(y)) for x, y in POLYS[pname]]
+    base = ccw[::-1] if clockwise else ccw  # what the constructor gets; the oracle below works on the counter-clockwise list
 
     def body(H, V):
         from coxeter.shapes import ConvexSpheropolygon
@@ -130,7 +133,7 @@ def sphero_body(pname, k, rr):
         cen = m["c"]
         pt = [cen[0] + d * c, cen[1] + d * s]
         H.claim("sphero.d>0", d > 0)
-        d2 = _dist2_to_polygon(H, base, pt)
+        d2 = _dist2_to_polygon(H, ccw, pt)
         H.claim_eq("sphero.point_at_distance_r_from_core", d2, rr * rr)
 
     return body
@@ -163,13 +166,20 @@ def obligations(tier, seed):
             nm, ["t"], polygon_body(pname, k, off), pre=pre, first_sample=dict(t=F(1, 3)), functions=functions_encoded([S.ConvexPolygon.distance_to_surface]),
             max_paths=(40 if tier == "quick" else 120), budget_s=(200 if tier == "quick" else 900), stubs=["kabsch / qhull contract stubs"],
             bounds="convex polygon %s (concrete, offset %s), direction parameter t free (all directions except pi and +-pi/2), turn count %d; path budget" % (pname, off, k)))))
+    for pname, k, off in ([("trapezoid", 0, (0, 0)), ("quad", 0, (3, -2))] if tier == "quick" else [(p, k, (0, 0)) for p in POLYS for k in (0, 1)]):
+        nm = "C14/ConvexPolygon.clockwise.%s.k%d.off%s" % (pname, k, "%d_%d" % off)
+        obs.append((nm, (lambda nm=nm, pname=pname, k=k, off=off: run_e2(
+            nm, ["t"], polygon_body(pname, k, off, clockwise=True), pre=pre, first_sample=dict(t=F(1, 3)), functions=functions_encoded([S.ConvexPolygon.distance_to_surface]),
+            max_paths=(40 if tier == "quick" else 120), budget_s=(200 if tier == "quick" else 900), stubs=["kabsch / qhull contract stubs"],
+            bounds="convex polygon %s listed clockwise (offset %s), direction parameter t free, turn count %d; path budget" % (pname, off, k)))))
     scfg = [("square_axes", 0, F(1, 2)), ("trapezoid", 0, F(1, 2)), ("rect_off", 0, F(1, 4)), ("square_axes", 1, F(1, 2)), ("trapezoid", -1, F(1, 2))]
     if tier == "thorough":
         scfg += [("quad", 0, F(1, 2)), ("tri", 0, F(1, 3)), ("pent", 0, F(1, 2)), ("tri", 2, F(3)), ("rect_off", -2, F(1, 4))]
-    for pname, k, rr in scfg:
-        nm = "C14/ConvexSpheropolygon.%s.k%d.r%s" % (pname, k, str(rr).replace("/", "_"))
-        obs.append((nm, (lambda nm=nm, pname=pname, k=k, rr=rr: run_e2(
-            nm, ["t"], sphero_body(pname, k, rr), pre=pre, first_sample=dict(t=F(1, 3)),
+    scfg = [(a, b, c, False) for a, b, c in scfg] + [("trapezoid", 0, F(1, 2), True)] + ([("tri", 1, F(1, 3), True), ("quad", 0, F(1, 2), True)] if tier == "thorough" else [])
+    for pname, k, rr, cw in scfg:
+        nm = "C14/ConvexSpheropolygon.%s%s.k%d.r%s" % ("clockwise." if cw else "", pname, k, str(rr).replace("/", "_"))
+        obs.append((nm, (lambda nm=nm, pname=pname, k=k, rr=rr, cw=cw: run_e2(
+            nm, ["t"], sphero_body(pname, k, rr, cw), pre=pre, first_sample=dict(t=F(1, 3)),
             functions=functions_encoded([S.ConvexSpheropolygon.distance_to_surface, S.ConvexSpheropolygon._get_outward_unit_normal, S.ConvexPolygon.distance_to_surface]),
             max_paths=(12 if tier == "quick" else 60), budget_s=(200 if tier == "quick" else 900), alt_timeout_ms=2000, solver_timeout_ms=8000,
             stubs=["kabsch / qhull contract stubs"],
